@@ -1,4 +1,4 @@
-from core import Property
+from core import Property, spec_match
 
 U64 = 2 ** 64
 B = [2 ** 6, 2 ** 14, 2 ** 30, 2 ** 62]
@@ -14,7 +14,7 @@ class P(Property):
     id = 'C16'
     gen_modules = ['gen_varint']
     properties_v = 'Properties/C16.v'
-    model_targets = ['Model/Varint.vo', 'Model/VarintExtra.vo', 'Spec/RFC9000.vo']
+    model_targets = ['Model/Varint.vo', 'Model/VarintExtra.vo', 'Model/ChunkedVarint.vo', 'Spec/RFC9000.vo']
     extract_v = 'Extract/ExtractC16.v'
     driver_ml = 'C16_driver.ml'
     harness_bin = 'c16'
@@ -23,7 +23,12 @@ class P(Property):
             'and with trailing bytes, and the same encodings as non-contiguous buffers cut at every position (vi.decc); vi.try64/vi.tryus/vi.push (TryFrom<u64>, TryFrom<usize>, PushId::try_from) and vi.wvar/vi.gvar (the write_var/get_var wrappers of proto/coding.rs and proto/varint.rs, contiguous and cut) on the same value sets; sid/sid.add for all four stream kinds x boundary indices x increments 0..usize::MAX (initiator/direction read from the two low bits of `id + 0`, not from words); '
             'sid.disp (Display for StreamId: lenient word reading + the number), sid.enc (Encode for StreamId), st.enc/st.dec (StreamType), vi.sess/vi.sessd (SessionId::try_from, Encode, Decode) on ids 0..300, form boundaries, random valid ids and the refused range '
             '(2^62-2..2^62+2, 2^63+-1, 2^64-2, 2^64-1 and seeded random values in [2^62,2^64)); vi.from (From<u8|u16|u32>, from_u32); vi.encp (encode onto a Vec / BytesMut / fixed slice that already holds 1..40 bytes); '
-            'vi.dec/vi.decc/vi.gvar inputs of up to 64 bytes in up to 6 chunks. '
+            'vi.dec/vi.decc/vi.gvar inputs of up to 64 bytes in up to 6 chunks; every one of the 2^(n-1) chunkings of complete 1/2/4/8-byte '
+            'forms with 0..2 trailing bytes and of every truncation of them (vi.decc, and through get_var / StreamType / SessionId). '
+            'Non-contiguous families (vi.decc vi.gvar st.dec vi.sessd): the MODEL column runs the chunked decoders of Model/ChunkedVarint.v '
+            '(bytes-crate provided methods over chunk()/advance()) on the same chunk list, and both sides print the chunks of the buffer '
+            'left behind.  After a failed decode the UnexpectedEnd integer and the buffer left behind are compared implementation-vs-model '
+            'only (C16_failed_decode_position describes what the code does); the specification column says `err * *`. '
             'non-trivial = distinct (family, form of first byte / value class by bit length, result kind) triples are NOT what is counted; '
             'counted are distinct cases whose input has at least one byte or a value > 0 (i.e. past the empty-input decision)')
 
@@ -165,6 +170,40 @@ class P(Property):
             parts = [bs[a:b_].hex() for a, b_ in zip([0] + cuts, cuts + [n])]
             out.append('vi.decc ' + '.'.join(parts))
             out.append('vi.gvar %s %s' % (rng.choice('cv'), '.'.join(parts)))
+        # EVERY chunking (all 2^(n-1) ways to cut n bytes) of complete forms with 0..2 trailing bytes and of every
+        # truncation: the position after a failed decode and the UnexpectedEnd integer are compared impl-vs-model
+        def all_chunkings(bs):
+            n = len(bs)
+            for m in range(1 << (n - 1)):
+                parts, prev = [], 0
+                for i in range(1, n):
+                    if m >> (i - 1) & 1:
+                        parts.append(bs[prev:i])
+                        prev = i
+                parts.append(bs[prev:])
+                yield '.'.join(p_.hex() for p_ in parts)
+        out.append('vi.decc -')
+        k = 0
+        for x in [0, 63, 64, 16383, 2 ** 30 - 1, 2 ** 30, 2 ** 62 - 1] + [rng.getrandbits(62) for _ in range(3 if tier == 'quick' else 60)]:
+            for l in (1, 2, 4, 8):
+                if x >= 2 ** (8 * l - 2):
+                    continue
+                e = enc(x, l)
+                for t in range(1, l):                      # truncated: 1..l-1 bytes present
+                    for ch in all_chunkings(e[:t]):
+                        k += 1
+                        out.append('vi.decc ' + ch)
+                        fam = ('vi.gvar c', 'vi.gvar v', 'st.dec', 'vi.sessd')[k % 4]
+                        out.append('%s %s' % (fam, ch))
+                for extra in (0, 1, 2):
+                    full = e + bytes(rng.getrandbits(8) for _ in range(extra))
+                    for ch in all_chunkings(full):
+                        k += 1
+                        if l == 8 and extra and k % 3:
+                            continue
+                        out.append('vi.decc ' + ch)
+                        if k % 5 == 0:
+                            out.append('%s %s' % (('vi.gvar c', 'vi.gvar v', 'st.dec', 'vi.sessd')[k % 4], ch))
         for _ in range(500 if tier == 'quick' else 50000):
             sid = rng.getrandbits(rng.choice([4, 16, 62]))
             out.append('sid %d' % sid)
@@ -172,11 +211,11 @@ class P(Property):
         return out
 
     def canon(self, case, out):
-        # the integer carried by UnexpectedEnd and the buffer position after a failed decode are not
-        # part of the property: a truncated encoding must be *reported as such*
+        # the integer carried by UnexpectedEnd and the buffer position after a failed decode are not part of the
+        # property (a truncated encoding must be *reported as such*): the specification column answers `err * *` and never
+        # demands them.  They ARE what the code does (C16_failed_decode_position), so implementation and model are compared
+        # on them in full - `err <integer> <chunks left behind>` is kept here.
         w = out.split()
-        if case.split()[0] in ('vi.dec', 'vi.decc', 'vi.gvar', 'st.dec', 'vi.sessd') and w and w[0] == 'err':
-            return 'err'
         if case.startswith('sid.disp') and len(w) == 4 and w[0] == 'ok':
             # the number Display prints is compared here; its words are read leniently and compared in
             # extra_checks (a wording the reader does not recognise, `?`, is not a failure of the property)
@@ -184,6 +223,20 @@ class P(Property):
         if w and w[0] == 'panic':
             return 'panic'
         return out
+
+    CHUNKED = ('vi.decc', 'vi.gvar', 'st.dec', 'vi.sessd')
+
+    def spec_ok(self, case, out, spec):
+        if spec is None:
+            return True
+        o = self.canon(case, out)
+        if case.split()[0] in self.CHUNKED:
+            # the oracle knows the flat rest only: forget the chunk boundaries of the buffer left behind
+            w = o.split()
+            if len(w) == 3 and w[0] in ('ok', 'err'):
+                w[2] = w[2].replace('.', '') or '-'
+                o = ' '.join(w)
+        return spec_match(o, self.canon(case, spec))
 
     def extra_checks(self, ctx):
         """Display for StreamId: the initiator / direction words, where recognisable, must name the RFC 9000 kind"""
